@@ -13,6 +13,12 @@ BUILT = {
  "C09": ("stateful property-based testing with a counting global allocator as oracle",
          "Same generated histories; every process_into_buffer, setter, reset and getter call is bracketed by reads of a per-thread allocator counter (alloc, dealloc, realloc, alloc_zeroed); any traffic is a violation. Exploration level.",
          "allocator traffic is observed on the calling thread; rubato spawns no threads; `log` feature off"),
+ "C12": ("property-based testing of the setters against a reference predicate, boundary/ulp-neighbour generators, differential twin",
+         "Generated (original, max) pairs and control calls with arguments at the documented bounds, their ulp neighbours, interior/far/special values through both ratio setters, and boundary chunk sizes; accept/reject is compared with the documented predicate evaluated in f64, rejected calls must leave the instance indistinguishable from a twin, accepted relative calls must equal the accepted absolute call. Exploration level.",
+         "the documented bounds are original/max, original*max (1/max, max for the relative setter) as a caller computes them in f64"),
+ "C13": ("property-based fault injection into call histories (one or two malformed arguments), differential twin for state preservation",
+         "A valid generated prefix, one malformed call (channel counts, short buffers, mask length) through process_into_buffer / process / process_partial_into_buffer, then a suffix compared bit-for-bit with a twin that never saw the malformed call; expected variant and fields computed by the harness; all seven constructors with each invalid argument class. Exploration level.",
+         "multi-fault calls may return any matching error; NaN ratios not asserted; input-shape faults through process_partial_into_buffer not asserted (documented padding)"),
 }
 SECTION = {f"C{n:02d}": f"DESIGN.md §5/C{n:02d}" for n in range(1, 19)}
 ALL = [f"C{n:02d}" for n in range(1, 19)]
